@@ -506,7 +506,7 @@ struct BaseEntry {
 }
 static BASE_CACHE: std::sync::Mutex<Vec<BaseEntry>> = std::sync::Mutex::new(Vec::new());
 static TRUTH_MEMO: std::sync::Mutex<Option<HashMap<(u64, String), Ans>>> = std::sync::Mutex::new(None);
-const BASE_CACHE_MIN_OPS: usize = 300;
+const BASE_CACHE_MIN_OPS: usize = 200;
 fn ops_key(ops: &[Op]) -> u64 {
     use std::hash::{Hash, Hasher};
     let mut h = std::collections::hash_map::DefaultHasher::new();
